@@ -1,3 +1,4 @@
 import Cicada.Thm.C07
 import Cicada.Thm.C07probe
+import Cicada.Thm.C07numbered
 /-! every theorem file of property C07 -/
